@@ -7,7 +7,8 @@ O3 == O2 + NUnknown
 O4 == O3 + NWordPos
 O5 == O4 + NLastWord
 O6 == O5 + NLayouts
-Count == O6 + NOneHot
+O7 == O6 + NOneHot
+Count == O7 + NSweep
 ItemAt(g) ==
   IF g <= O1 THEN CountsAt(g)
   ELSE IF g <= O2 THEN FlipsAt(g - O1)
@@ -15,7 +16,8 @@ ItemAt(g) ==
   ELSE IF g <= O4 THEN WordPosAt(g - O3)
   ELSE IF g <= O5 THEN LastWordAt(g - O4)
   ELSE IF g <= O6 THEN LayoutAt(g - O5)
-  ELSE OneHotAt(g - O6)
+  ELSE IF g <= O7 THEN OneHotAt(g - O6)
+  ELSE SweepAt(g - O7)
 VARIABLE n
 INSTANCE GenBase
 =============================================================================
